@@ -35,7 +35,7 @@ RULE = ('operation scripts over several var_opt_sketch<int64_t> registers and a 
         'choose_delete_slot, dumps after every few updates, subset-sum queries with five predicates, serialize/deserialize round '
         'trips (bytes, stream, header) into another register followed by further updates, copies, resets; unions (max_k from 1 to '
         'more than all samples together) of sketches with different k and fill state (empty, under-full, exactly full, estimation '
-        'mode, deserialized copies, the same sketch twice, equal taus), union dumps, intermediate and final get_result, updates '
+        'mode, deserialized copies, the same sketch twice, equal taus) given by const reference or as an rvalue (update(std::move(copy))), union dumps, intermediate and final get_result, updates '
         'and a round trip of the result, serialize/deserialize of the union itself (bytes, stream, header) with both copies '
         'continuing, union reset and reuse; non-trivial = some register leaves the warm-up phase (n > k) or a '
         'round trip / union happens')
@@ -180,7 +180,7 @@ def union_phase(rng, ops, tags, srcs, klist, pat, st, universe, u):
     for j in range(rng.choice([1, 2, 2, 3, 4, 5])):
         if rng.random() < 0.08:
             ops.append([98] + [rng.choice([0, d2b(0.5), d2b(1 - 2 ** -53), rng.randrange(1 << 20)]) for _ in range(rng.randint(1, 3))])
-        ops.append([11, u, rng.choice(srcs)])
+        ops.append([rng.choice([11, 16]), u, rng.choice(srcs)])
         if rng.random() < 0.5:
             ops.append([14, u])
         if rng.random() < 0.3:
@@ -191,7 +191,7 @@ def union_phase(rng, ops, tags, srcs, klist, pat, st, universe, u):
         ops.append([15, u, u + 10, rng.randrange(3)]); ops.append([14, u + 10])
         ops.append([12, u + 10, 203]); ops.append([3, 203])
         if rng.random() < 0.5:
-            ops.append([11, u + 10, rng.choice(srcs)]); ops.append([14, u + 10])
+            ops.append([rng.choice([11, 16]), u + 10, rng.choice(srcs)]); ops.append([14, u + 10])
             ops.append([12, u + 10, 203]); ops.append([3, 203]); ops.append([4, 203, 0, 0])
     ops.append([14, u]); ops.append([12, u, 200]); ops.append([3, 200])
     for p in PREDS:
@@ -208,7 +208,7 @@ def union_phase(rng, ops, tags, srcs, klist, pat, st, universe, u):
     ops.append([5, 200, 201, rng.randrange(3)]); ops.append([3, 201])
     if rng.random() < 0.25:
         ops.append([13, u]); ops.append([14, u]); tags.add('union-reset')
-        ops.append([11, u, rng.choice(srcs)]); ops.append([11, u, 201])
+        ops.append([rng.choice([11, 16]), u, rng.choice(srcs)]); ops.append([11, u, 201])
         ops.append([14, u]); ops.append([12, u, 202]); ops.append([3, 202]); ops.append([4, 202, 0, 0])
 
 def union_case(rng, ci):
@@ -400,7 +400,7 @@ def oracle(case, irecs, mrecs):
                 ureg[op[1]] = dict(maxk=op[2], cnt=0, taint=False, est=False)
             elif 1 <= op[2] <= 2 ** 31 - 2:
                 bad('ctor_refused', 'union constructor refused valid max_k=%d' % op[2], i)
-        elif c == 11 and len(op) >= 3 and op[1] in ureg and op[2] in reg:
+        elif c in (11, 16) and len(op) >= 3 and op[1] in ureg and op[2] in reg:
             u = ureg[op[1]]; g = reg[op[2]]
             if g['taint']:
                 u['taint'] = True
